@@ -549,3 +549,49 @@ Proof.
   intros Hw E H. destruct (thick_points_first l w Hw) as (rest & E2 & _). rewrite E in E2. injection E2 as ->.
   apply in_or_app. left. assumption.
 Qed.
+
+(* ---- Styled<Line>::pixels() (styled.rs) ------------------------------------------ *)
+Definition colored (c : Z) (ps : list point) : list (point * Z) := map (fun p => (p, c)) ps.
+
+Lemma styled_no_stroke l st :
+  stroke_color st = None \/ stroke_width st = 0 -> styled_line_pixels l st = Some [].
+Proof.
+  intros H. unfold styled_line_pixels, effective_stroke_color.
+  destruct (stroke_color st) as [c|]; [|reflexivity].
+  destruct H as [H|H]; [discriminate|]. rewrite H. reflexivity.
+Qed.
+
+Lemma styled_eq l st c : stroke_color st = Some c -> 1 <= stroke_width st ->
+  styled_line_pixels l st = option_map (colored c) (thick_points l (Z.min (stroke_width st) i32_max)).
+Proof.
+  intros Hc Hw. unfold styled_line_pixels, effective_stroke_color. rewrite Hc.
+  assert (T : 0 <? stroke_width st = true) by lia. rewrite T. unfold sat_u32_to_i32.
+  destruct (thick_points l _); reflexivity.
+Qed.
+
+Lemma styled_w1_is_points l st c : stroke_color st = Some c -> stroke_width st = 1 ->
+  styled_line_pixels l st = Some (colored c (line_points l)).
+Proof.
+  intros Hc Hw. rewrite (styled_eq l st c Hc) by lia. rewrite Hw.
+  change (Z.min 1 i32_max) with 1. rewrite thick_w1_is_points. reflexivity.
+Qed.
+
+Lemma styled_starts_with_thin l st c : stroke_color st = Some c -> 1 <= stroke_width st ->
+  exists rest, styled_line_pixels l st = Some (colored c (line_points l) ++ rest).
+Proof.
+  intros Hc Hw. rewrite (styled_eq l st c Hc Hw).
+  destruct (thick_points_first l (Z.min (stroke_width st) i32_max)) as (rest & E & _); [unfold i32_max; lia|].
+  rewrite E. cbn [option_map]. unfold colored. rewrite map_app. eexists; reflexivity.
+Qed.
+
+Lemma styled_total l st : 0 <= stroke_width st ->
+  exists pcs, styled_line_pixels l st = Some pcs /\
+              Z.of_nat (length pcs) <= (3 * Z.min (stroke_width st) i32_max + 2) * major_length l.
+Proof.
+  intros Hw. unfold styled_line_pixels. destruct (effective_stroke_color st) as [c|].
+  - destruct (thick_points_total l (sat_u32_to_i32 (stroke_width st))) as (ps & E & L);
+      [unfold sat_u32_to_i32, i32_max; lia|].
+    rewrite E. eexists; split; [reflexivity|]. rewrite map_length. exact L.
+  - eexists; split; [reflexivity|]. cbn [length]. pose proof (major_length_frame l). pose proof (ldm_ok l).
+    unfold i32_max. nia.
+Qed.
